@@ -312,6 +312,7 @@ func main() {
 		r.Add("cache_sequences", es.cacheSeqs)
 		r.Add("cache_responses_served_without_a_draw", es.cacheHits)
 		r.Add("cache_candidate_sets", es.cacheWorlds)
+		r.Add("cache_verdicts_left_to_part1_same_without_cache", es.cacheAlsoPlain)
 		r.Add("prop_vectors_off_grid", ps.offGrid)
 		r.Add("prop_cross_vectors_judged_without_row_order", ps.crossSkipped)
 		for k := 1; k <= 5; k++ {
@@ -349,7 +350,7 @@ func main() {
 	r.Set("sched_preemption_bound", schedBound)
 	r.Set("candidate_alphabet", fmt.Sprint(alphabet))
 	r.Set("draw_alphabet", drawAlphabet)
-	r.Set("rule", "part 1: every multiset of candidates over {weight 0,1,2,2^32-1}x{untagged,aa} up to the size bound (see e2e_bounds), declared in a data file (plus records tagged bb that no client may see), compiled by the real compiler, served by the real handler with the scripted source: for every maxAnswer and EVERY sequence of key draws over the 5-value draw alphabet, one per draw the code takes (shuffle draws defaulted, then each varied over the alphabet with keys fixed; a configuration in which the code does not take one draw per row is bounded to 2048 sequences: the largest of the alphabets 5-value, {0,2^31,2^32-1}, {0,2^32-1} that fits - see e2e_configurations_on_reduced_draw_alphabet), the address records of the response are judged: A and AAAA answers; additional-section addresses of an MX target (mx), of delegation glue (ns), of a target named by TWO records of the RRset (mx2: two MX preferences, ns2: two NS records, https2: two HTTPS records of one owner), of glue whose name is the queried name (nsself), of the owner of an HTTPS answer (https), and of an MX RRset naming an IPv4-only target twice and an IPv6-only target once (mxmulti); targets declare one family or both, and every candidate set includes those with no visible / no positive-weight candidate. Clauses, per target name and family: count = min(max, positive-weight visible candidates) with max = maxAnswer in the answer section and 1 in the additional section (for https/https2 only the upper bound: the statement demands addresses for NS/MX targets), addresses subset of the declared ones visible to the client and of a family the target declares, no repetition, no weight-0 address in a NOERROR response; a panic or a missing response is a violation too. Failing cases are minimised over all candidate sub-sets (and simpler symbols / draws) and reported once. When the code takes a number of key draws other than one per row of the slot's targets (on the unchanged tree: a target named twice none of whose candidates has a positive weight is selected for twice; RocksDB referrals for located clients) draws are not attributed to candidates: every sequence over the draws actually taken is still enumerated and judged, minimisation is over candidate sets only. part 1b: the same clauses with the response cache enabled and weighted answers cached (see cache_bounds): from an empty cache, every ordered pair of distinct requests is served first, then, first again, and each of the three responses is judged against the maximum, family and client location of ITS OWN request. states = (set, client, slot, maxAnswer) configurations + cache sequences + grid cells + scheduler states; nontrivial = evaluations in which at least one visible candidate had to be left out. part 2: for every weight vector, every candidate and every cell of the N^n grid over the draws, the real Wrs.Add/ARecord is evaluated at the cell's two extreme corners; cells won at the worst corner bound P(served) from below, cells won at the best corner from above; the statement's w_i/sum(w) must lie in the bracket (exact integer comparison); a selection that does not take one draw per candidate, panics or fails is a violation (the bracket then bounds nothing); a coarse grid is also served through the real handler and compared with the direct selection. part 3: every interleaving within the preemption bound of 2-3 threads taking 2 draws each from rand.New(&lockedSource{...}) over a deliberately non-atomic probe source (and over the runtime source re-seeded through the locked Seed): multiset of values = first n outputs, no race on the underlying state, no deadlock")
+	r.Set("rule", "part 1: every multiset of candidates over {weight 0,1,2,2^32-1}x{untagged,aa} up to the size bound (see e2e_bounds), declared in a data file (plus records tagged bb that no client may see), compiled by the real compiler, served by the real handler with the scripted source: for every maxAnswer and EVERY sequence of key draws over the 5-value draw alphabet, one per draw the code takes (shuffle draws defaulted, then each varied over the alphabet with keys fixed; a configuration in which the code does not take one draw per row is bounded to 2048 sequences: the largest of the alphabets 5-value, {0,2^31,2^32-1}, {0,2^32-1} that fits - see e2e_configurations_on_reduced_draw_alphabet), the address records of the response are judged: A and AAAA answers; additional-section addresses of an MX target (mx), of delegation glue (ns), of a target named by TWO records of the RRset (mx2: two MX preferences, ns2: two NS records, https2: two HTTPS records of one owner), of glue whose name is the queried name (nsself), of the owner of an HTTPS answer (https), and of an MX RRset naming an IPv4-only target twice and an IPv6-only target once (mxmulti); targets declare one family or both, and every candidate set includes those with no visible / no positive-weight candidate. Clauses, per target name and family: count = min(max, positive-weight visible candidates) with max = maxAnswer in the answer section and 1 in the additional section (for https/https2 only the upper bound: the statement demands addresses for NS/MX targets), addresses subset of the declared ones visible to the client and of a family the target declares, no repetition, no weight-0 address in a NOERROR response; a panic or a missing response is a violation too. Failing cases are minimised over all candidate sub-sets (and simpler symbols / draws) and reported once. When the code takes a number of key draws other than one per row of the slot's targets (on the unchanged tree: a target named twice none of whose candidates has a positive weight is selected for twice; RocksDB referrals for located clients) draws are not attributed to candidates: every sequence over the draws actually taken is still enumerated and judged, minimisation is over candidate sets only. part 1b: the same clauses with the response cache enabled and weighted answers cached (see cache_bounds): from an empty cache, every ordered pair of distinct requests is served first, then, first again, and each of the three responses is judged against the maximum, family and client location of ITS OWN request (a clause that the same request with the same draws violates without the cache too is part 1's finding and not reported again). states = (set, client, slot, maxAnswer) configurations + cache sequences + grid cells + scheduler states; nontrivial = evaluations in which at least one visible candidate had to be left out. part 2: for every weight vector, every candidate and every cell of the N^n grid over the draws, the real Wrs.Add/ARecord is evaluated at the cell's two extreme corners; cells won at the worst corner bound P(served) from below, cells won at the best corner from above; the statement's w_i/sum(w) must lie in the bracket (exact integer comparison); a selection that does not take one draw per candidate, panics or fails is a violation (the bracket then bounds nothing); a coarse grid is also served through the real handler and compared with the direct selection. part 3: every interleaving within the preemption bound of 2-3 threads taking 2 draws each from rand.New(&lockedSource{...}) over a deliberately non-atomic probe source (and over the runtime source re-seeded through the locked Seed): multiset of values = first n outputs, no race on the underlying state, no deadlock")
 	r.Assume = []string{
 		"part 2 relies on the key being monotone in the draw (checked at every evaluated corner pair: a cell won at its worst corner must be won at its best corner); deviations of a selection rule smaller than the reported bracket width are not detected",
 		"a uniform 32-bit draw is assumed for the probabilities (each grid cell has probability exactly N^-n); the quality of math/rand's generator is not examined",
